@@ -181,7 +181,204 @@ theorem decode_total (a : List Nat) : ∃ f, articleIDToRaw a = .ok f := by
   obtain ⟨v, hv⟩ := aidc_decode_total (copyInto 8 a)
   exact ⟨aiduToFN v, by rw [hv]; rfl⟩
 
+/-! #### (v) designation: what is shown to a client leads back to the one article it was produced from
+
+`webURL`, `urlLine`, `resolveURL`, `resolveLine`, `listEntry`, `aidcText` are the functions the
+`designate` pass of the driver runs against ptt.GetWebURL, the line DoPostArticle stores, the real
+decoder and bbs.NewArticleSummaryFromRaw. -/
+
+/-- the 8 characters GetWebURL / the cross-post header print decode (`ArticleID.ToRaw`) to the record's
+file name. -/
+theorem aidcText_decodes (isM : Bool) (t p : Nat) (h : InDomain t p) :
+    articleIDToRaw (aidcText (render isM t p)) = .ok (render isM t p) := by
+  have := articleId_roundtrip isM t p h
+  unfold toArticleID at this
+  rw [idName_render] at this
+  exact this
+
+/-- file-name url: `URL_PREFIX/board/name.html` read back gives the board and exactly that record's
+file name (no hypothesis on time or suffix is needed for this form). -/
+theorem webURL_file_resolves (pfx board : List Nat) (isM : Bool) (t p : Nat) (hb : 47 ∉ cstr board) :
+    resolveURL false pfx (webURL false pfx board (render isM t p))
+      = .ok (some (cstr board, render isM t p)) := by
+  have e : webURL false pfx board (render isM t p)
+      = (pfx ++ [47]) ++ (cstr board ++ 47 :: (body (if isM then 77 else 71) t p ++ htmlExt)) := by
+    simp [webURL, cstr_render]
+  rw [e]
+  unfold resolveURL
+  rw [stripPrefix_append]
+  simp only []
+  rw [splitSlash_append _ _ hb]
+  simp only [Bool.false_eq_true, if_false]
+  rw [stripSuffix_append]
+  simp only []
+  rw [← render_body]
+  rfl
+
+/-- id url (USE_AID_URL): `URL_PREFIX/board/<aidc>` read back through the real decoder's model gives the
+board and exactly that record's file name. -/
+theorem webURL_aid_resolves (pfx board : List Nat) (isM : Bool) (t p : Nat) (h : InDomain t p)
+    (hb : 47 ∉ cstr board) :
+    resolveURL true pfx (webURL true pfx board (render isM t p))
+      = .ok (some (cstr board, render isM t p)) := by
+  have e : webURL true pfx board (render isM t p)
+      = (pfx ++ [47]) ++ (cstr board ++ 47 :: aidcText (render isM t p)) := by
+    simp [webURL]
+  rw [e]
+  unfold resolveURL
+  rw [stripPrefix_append]
+  simp only []
+  rw [splitSlash_append _ _ hb]
+  simp only [if_true]
+  rw [aidcText_decodes isM t p h]
+  rfl
+
+/-- both url forms. -/
+theorem webURL_resolves (useAid : Bool) (pfx board : List Nat) (isM : Bool) (t p : Nat)
+    (h : InDomain t p) (hb : 47 ∉ cstr board) :
+    resolveURL useAid pfx (webURL useAid pfx board (render isM t p))
+      = .ok (some (cstr board, render isM t p)) := by
+  cases useAid
+  · exact webURL_file_resolves pfx board isM t p hb
+  · exact webURL_aid_resolves pfx board isM t p h hb
+
+/-- the line stored in the article (display name, blank, url, newline) leads back to the board and the
+file name of the record it was computed from. -/
+theorem urlLine_resolves (useAid : Bool) (disp pfx board : List Nat) (isM : Bool) (t p : Nat)
+    (h : InDomain t p) (hb : 47 ∉ cstr board) :
+    resolveLine useAid disp pfx (urlLine disp (webURL useAid pfx board (render isM t p)))
+      = .ok (some (cstr board, render isM t p)) := by
+  have e : urlLine disp (webURL useAid pfx board (render isM t p))
+      = (disp ++ [32]) ++ (webURL useAid pfx board (render isM t p) ++ [10]) := by
+    simp [urlLine]
+  rw [e]
+  unfold resolveLine
+  rw [stripPrefix_append]
+  simp only []
+  rw [stripSuffix_append]
+  simp only []
+  exact webURL_resolves useAid pfx board isM t p h hb
+
+/-- two names of the domain are the same name when they render the same. -/
+theorem render_injective (m m' : Bool) (t p t' p' : Nat) (h : InDomain t p) (h' : InDomain t' p')
+    (e : render m t p = render m' t' p') : m = m' ∧ t = t' ∧ p = p' :=
+  toAidu_injective m m' t p t' p' h h' (by rw [e])
+
+/-- two records with different names (or of different boards) never get the same url: a url designates
+one board and one file name. -/
+theorem webURL_injective (useAid : Bool) (pfx board board' : List Nat) (m m' : Bool) (t p t' p' : Nat)
+    (h : InDomain t p) (h' : InDomain t' p') (hb : 47 ∉ cstr board) (hb' : 47 ∉ cstr board')
+    (e : webURL useAid pfx board (render m t p) = webURL useAid pfx board' (render m' t' p')) :
+    cstr board = cstr board' ∧ m = m' ∧ t = t' ∧ p = p' := by
+  have r := webURL_resolves useAid pfx board m t p h hb
+  rw [e, webURL_resolves useAid pfx board' m' t' p' h' hb'] at r
+  injection r with r
+  injection r with r
+  injection r with rb rn
+  exact ⟨rb.symm, render_injective m m' t p t' p' h h' rn.symm⟩
+
+/-- the same for the stored lines. -/
+theorem urlLine_injective (useAid : Bool) (disp pfx board board' : List Nat) (m m' : Bool)
+    (t p t' p' : Nat) (h : InDomain t p) (h' : InDomain t' p')
+    (hb : 47 ∉ cstr board) (hb' : 47 ∉ cstr board')
+    (e : urlLine disp (webURL useAid pfx board (render m t p))
+       = urlLine disp (webURL useAid pfx board' (render m' t' p'))) :
+    cstr board = cstr board' ∧ m = m' ∧ t = t' ∧ p = p' := by
+  have r := urlLine_resolves useAid disp pfx board m t p h hb
+  rw [e, urlLine_resolves useAid disp pfx board' m' t' p' h' hb'] at r
+  injection r with r
+  injection r with r
+  injection r with rb rn
+  exact ⟨rb.symm, render_injective m m' t p t' p' h h' rn.symm⟩
+
+/-- the id a listing entry (or the answer of CreateArticle) reports decodes to the entry's file name. -/
+theorem listEntry_id_decodes (isM : Bool) (t p owner0 : Nat) (h : InDomain t p) :
+    articleIDToRaw (listEntry (render isM t p) owner0).id = .ok (render isM t p) :=
+  articleId_roundtrip isM t p h
+
+/-- the file name string an entry reports is the record's file name. -/
+theorem listEntry_filename (isM : Bool) (t p owner0 : Nat) :
+    copyInto FNLEN (listEntry (render isM t p) owner0).filename = render isM t p := by
+  show copyInto FNLEN (cstr (render isM t p)) = _
+  rw [cstr_render, ← render_body]
+
+/-- a delete-marked entry is reported as deleted, and its id decodes to the name the article file still
+has in the board directory (`M.` + the rest of the name). -/
+theorem listEntry_deleted (isM : Bool) (t p owner0 : Nat) (h : InDomain t p) :
+    (listEntry (markDeleted (render isM t p)) owner0).deleted = true ∧
+    articleIDToRaw (listEntry (markDeleted (render isM t p)) owner0).id = .ok (render true t p) := by
+  refine ⟨by simp [listEntry, markDeleted], ?_⟩
+  show articleIDToRaw (toArticleID (markDeleted (render isM t p))) = _
+  rw [toArticleID_deleted]
+  exact articleId_roundtrip true t p h
+
+/-- entries with different names report different ids. -/
+theorem listEntry_id_injective (m m' : Bool) (t p t' p' o o' : Nat) (h : InDomain t p) (h' : InDomain t' p')
+    (e : (listEntry (render m t p) o).id = (listEntry (render m' t' p') o').id) :
+    m = m' ∧ t = t' ∧ p = p' := by
+  have r := listEntry_id_decodes m t p o h
+  rw [e, listEntry_id_decodes m' t' p' o' h'] at r
+  injection r with r
+  exact render_injective m m' t p t' p' h h' r.symm
+
+/-- the ids of a listing are pairwise distinct when the names in the index are. -/
+theorem listing_ids_nodup (es : List (Bool × Nat × Nat)) (hd : ∀ e ∈ es, InDomain e.2.1 e.2.2)
+    (hn : es.Nodup) (o : Nat) :
+    (es.map (fun e => (listEntry (render e.1 e.2.1 e.2.2) o).id)).Nodup := by
+  induction es with
+  | nil => simp
+  | cons a l ih =>
+    rw [List.nodup_cons] at hn
+    rw [List.map_cons, List.nodup_cons]
+    refine ⟨?_, ih (fun e he => hd e (by simp [he])) hn.2⟩
+    intro hm
+    rw [List.mem_map] at hm
+    obtain ⟨b, hb, eb⟩ := hm
+    have := listEntry_id_injective b.1 a.1 b.2.1 b.2.2 a.2.1 a.2.2 o o
+      (hd b (by simp [hb])) (hd a (by simp)) eb
+    have hab : b = a := by
+      obtain ⟨b1, b2, b3⟩ := b
+      obtain ⟨a1, a2, a3⟩ := a
+      simp at this
+      simp [this]
+    exact hn.1 (hab ▸ hb)
+
 /-! #### non-vacuity: the domain is inhabited and the statements say something on it -/
+
+/-- "WhoAmI" in a 13-byte board-name array. -/
+def exBoard : List Nat := [87, 104, 111, 65, 109, 73, 0, 0, 0, 0, 0, 0, 0]
+/-- "http://localhost/bbs" -/
+def exPrefix : List Nat :=
+  [104, 116, 116, 112, 58, 47, 47, 108, 111, 99, 97, 108, 104, 111, 115, 116, 47, 98, 98, 115]
+
+example : (47 : Nat) ∉ cstr exBoard := by decide
+example : InDomain 1234567890 0x1AB ∧ InDomain 1234567890 0x1AC := by unfold InDomain; omega
+-- the hypotheses of the designation theorems hold for a concrete record, in both url forms
+example : resolveURL true exPrefix (webURL true exPrefix exBoard (render true 1234567890 0x1AB))
+    = .ok (some (cstr exBoard, render true 1234567890 0x1AB)) :=
+  webURL_resolves true exPrefix exBoard true 1234567890 0x1AB (by unfold InDomain; omega) (by decide)
+example : resolveLine false [37] exPrefix (urlLine [37] (webURL false exPrefix exBoard (render true 1234567890 0x1AB)))
+    = .ok (some (cstr exBoard, render true 1234567890 0x1AB)) :=
+  urlLine_resolves false [37] exPrefix exBoard true 1234567890 0x1AB (by unfold InDomain; omega) (by decide)
+-- two records of one board that differ only in the last suffix digit have different urls and ids
+example : webURL true exPrefix exBoard (render true 1234567890 0x1AB)
+    ≠ webURL true exPrefix exBoard (render true 1234567890 0x1AC) := by
+  intro e
+  have := webURL_injective true exPrefix exBoard exBoard true true 1234567890 0x1AB 1234567890 0x1AC
+    (by unfold InDomain; omega) (by unfold InDomain; omega) (by decide) (by decide) e
+  omega
+example : (listEntry (render true 1234567890 0x1AB) 83).id ≠ (listEntry (render true 1234567890 0x1AC) 83).id := by
+  intro e
+  have := listEntry_id_injective true true 1234567890 0x1AB 1234567890 0x1AC 83 83
+    (by unfold InDomain; omega) (by unfold InDomain; omega) e
+  omega
+example : ([(true, 1234567890, 0x1AB), (true, 1234567890, 0x1AC), (false, 1234567890, 0x1AB)] :
+    List (Bool × Nat × Nat)).Nodup := by decide
+-- the file-name url of a concrete record, spelled out
+example : webURL false [104] exBoard (render true 1234567890 0x1AB)
+    = [104, 47, 87, 104, 111, 65, 109, 73, 47, 77, 46, 49, 50, 51, 52, 53, 54, 55, 56, 57, 48, 46, 65, 46,
+       49, 65, 66, 46, 104, 116, 109, 108] := by decide +kernel
+
 
 example : InDomain 1234567890 0x1AB := by unfold InDomain; omega
 example : fnToAidu (render true 1234567890 0x1AB) = 5056790077867 := by decide +kernel
